@@ -16,7 +16,7 @@ def sh(cmd, cwd=None, timeout=3600, env=None):
 
 def main():
     batch = sys.argv[1].rstrip('/')
-    ids = sys.argv[2:] or sorted(d for d in os.listdir(batch) if re.fullmatch(r'C\d\d_\d', d))
+    ids = sys.argv[2:] or sorted(d for d in os.listdir(batch) if re.fullmatch(r'C\d\d_\d+', d))
     # the demos reference the seeding agent's worktree path
     wt = None
     for sid in ids:
